@@ -248,3 +248,62 @@ Qed.
 
 Print Assumptions negated_ranges_spec.
 Print Assumptions negated_ranges_wf.
+
+(* ---------- complement terminals never match the special-token marker ---------- *)
+From LLG Require Import Regex RegexProofs.
+
+Lemma no_marker_set_spec : forall b, b < 256 -> bset_mem no_marker_set b = negb (b =? 255).
+Proof.
+  intros b Hb.
+  assert (H : forallb (fun b => Bool.eqb (bset_mem no_marker_set b) (negb (b =? 255))) (seqN 0 256) = true)
+    by (vm_compute; reflexivity).
+  assert (Hin : In b (seqN 0 256)).
+  { clear H. assert (G : forall n s x, s <= x < s + N.of_nat n -> In x (seqN s n)).
+    { induction n as [|n IH]; intros s x Hx; [lia|]. cbn [seqN In].
+      destruct (N.eq_dec s x) as [->|Hne]; [now left|right; apply IH; lia]. }
+    apply G. lia. }
+  apply (proj1 (forallb_forall _ _) H) in Hin. now apply Bool.eqb_prop in Hin.
+Qed.
+
+Lemma pow_no_marker : forall n w, pow_lang (re_lang (Bytes no_marker_set)) n w -> ~ In 255 w.
+Proof.
+  induction n as [|n IH]; intros w H; cbn [pow_lang] in H.
+  - subst w. intros [].
+  - destruct H as (u & v & -> & (b & -> & Hm & Hb) & Hv). intros Hin.
+    cbn [app In] in Hin. destruct Hin as [E|Hin].
+    + subst b. rewrite (no_marker_set_spec 255 Hb) in Hm. discriminate.
+    + exact (IH v Hv Hin).
+Qed.
+
+(* with the guard no word containing the marker byte is in the language of a complement terminal:
+   in particular no special token (marker byte followed by its name) *)
+Theorem lark_not_never_matches_marker : forall r w,
+  re_lang (lark_not true r) w -> ~ In 255 w.
+Proof.
+  intros r w H. unfold lark_not in H. cbn [re_lang] in H. destruct H as [_ (n & _ & _ & Hp)].
+  exact (pow_no_marker n w Hp).
+Qed.
+
+(* and on words without the marker byte it is the plain complement *)
+Theorem lark_not_is_complement_on_text : forall r w, bytes_ok w -> ~ In 255 w ->
+  (re_lang (lark_not true r) w <-> ~ re_lang r w).
+Proof.
+  intros r w Hok Hno. unfold lark_not. cbn [re_lang]. split; [tauto|].
+  intros Hn. split; [exact Hn|]. exists (length w). split; [lia|]. split; [exact I|].
+  clear Hn. induction w as [|b w IH]; cbn [length pow_lang]; [reflexivity|].
+  inversion Hok as [|? ? Hb Hok']; subst.
+  exists [b], w. split; [reflexivity|]. split.
+  - exists b. split; [reflexivity|]. split; [|exact Hb].
+    rewrite (no_marker_set_spec b Hb). apply negb_true_iff. apply N.eqb_neq. intros ->. apply Hno. now left.
+  - apply IH; [assumption|]. intros Hin. apply Hno. now right.
+Qed.
+
+(* without the guard the complement of a literal contains every special token *)
+Theorem lark_not_unguarded_refuted : exists r w, re_lang (lark_not false r) (255 :: w).
+Proof.
+  exists (Bytes (bset_single 97)), [60; 124; 116; 124; 62]. unfold lark_not. cbn [re_lang].
+  intros (b & E & _). discriminate E.
+Qed.
+
+Print Assumptions lark_not_never_matches_marker.
+Print Assumptions lark_not_is_complement_on_text.
